@@ -27,6 +27,18 @@ func (e *evalEnv) eval(t *Term) (uint64, bool) {
 	if v, ok := e.memo[t]; ok {
 		return v, true
 	}
+	if e.vals != nil {
+		if v, ok := e.vals[t]; ok {
+			return v, true
+		}
+	}
+	if t.op == OpExtract && e.vals != nil {
+		if atom, sh, ok := e.c.byteAtom(t); ok && atom != t {
+			if v, ok := e.vals[atom]; ok {
+				return (v >> uint(sh)) & mask(t.w), true
+			}
+		}
+	}
 	if t.w > 64 {
 		return 0, false
 	}
@@ -115,7 +127,28 @@ func (e *evalEnv) eval(t *Term) (uint64, bool) {
 }
 
 // support computation (memoised on the term)
-func (t *Term) support() (*Term, int) {
+// byteAtom: for an extract that lies within one byte of an uninterpreted value, the term for
+// that whole byte (the atom) and the bit offset inside it.
+func (c *Ctx) byteAtom(t *Term) (*Term, int, bool) {
+	if t.op != OpExtract {
+		return nil, 0, false
+	}
+	a := t.args[0]
+	if a.op != OpUF || strings.HasPrefix(a.name, "lut") || a.w%8 != 0 {
+		return nil, 0, false
+	}
+	hi, lo := int(t.k>>32), int(t.k&0xffffffff)
+	if hi/8 != lo/8 {
+		return nil, 0, false
+	}
+	b := lo / 8
+	if hi == 8*b+7 && lo == 8*b {
+		return t, 0, true
+	}
+	return c.mk(&Term{op: OpExtract, w: 8, k: uint64(8*b+7)<<32 | uint64(8*b), args: []*Term{a}}), lo - 8*b, true
+}
+
+func (c *Ctx) supportOf(t *Term) (*Term, int) {
 	if t.ns != 0 {
 		return t.sv, int(t.ns) - 1
 	}
@@ -127,13 +160,21 @@ func (t *Term) support() (*Term, int) {
 		sv, n = t, 1
 	case OpUF:
 		if strings.HasPrefix(t.name, "lut") && len(t.args) == 1 {
-			sv, n = t.args[0].support()
+			sv, n = c.supportOf(t.args[0])
+		} else if t.w > 0 && t.w <= 8 {
+			sv, n = t, 1 // an uninterpreted 8-bit value is an atom
 		} else {
 			n = 2
 		}
+	case OpExtract:
+		if atom, _, ok := c.byteAtom(t); ok {
+			sv, n = atom, 1 // (part of) one byte of an uninterpreted value: that byte is the atom
+			break
+		}
+		sv, n = c.supportOf(t.args[0])
 	default:
 		for _, a := range t.args {
-			s, k := a.support()
+			s, k := c.supportOf(a)
 			switch {
 			case k == 0:
 			case k >= 2:
@@ -156,7 +197,25 @@ func (t *Term) support() (*Term, int) {
 }
 
 func (t *Term) isLUT() bool {
-	return t.op == OpUF && strings.HasPrefix(t.name, "lut") && len(t.args) == 1 && t.args[0].op == OpVar
+	return t.op == OpUF && strings.HasPrefix(t.name, "lut") && len(t.args) == 1
+}
+
+// size counts nodes up to a limit.
+func (t *Term) size(limit int) int {
+	if t.op == OpConst || t.op == OpVar || limit <= 0 || (t.op == OpUF && !t.isLUT()) {
+		return 1
+	}
+	if t.op == OpExtract && t.args[0].op == OpUF {
+		return 1
+	}
+	n := 1
+	for _, a := range t.args {
+		n += a.size(limit - n)
+		if n >= limit {
+			break
+		}
+	}
+	return n
 }
 
 func (t *Term) hasIteOrLUT(d int) bool {
@@ -179,11 +238,11 @@ func (c *Ctx) Canon8(t *Term) *Term {
 	if t.op == OpConst || t.op == OpVar || t.w == 0 || t.w > 64 || t.isLUT() {
 		return t
 	}
-	sv, n := t.support()
-	if n != 1 || sv.w != 8 {
+	sv, n := c.supportOf(t)
+	if n != 1 || sv.w != 8 || sv == t {
 		return t
 	}
-	if !t.hasIteOrLUT(3) {
+	if !t.hasIteOrLUT(3) && !(c.canonAll && t.size(8) >= 8) {
 		return t
 	}
 	var tab [256]uint64
